@@ -359,9 +359,14 @@ class FindInstancePeaksGroundTruth(L.LightningModule):
     def forward(self, batch: Dict[str, torch.Tensor]) -> Dict[str, np.array]:
         """Return the ground truth instance peaks given a set of crops."""
         b, _, max_inst, nodes, _ = batch["instances"].shape
+        # `instances` are in size-matched (eff_scale) coordinates while `centroids` have already
+        # been divided by eff_scale: match them in the same (original) coordinate system.
         inst = (
-            batch["instances"].unsqueeze(dim=-4).float()
-        )  # (batch, 1, 1, n_inst, nodes, 2)
+            batch["instances"]
+            / batch["eff_scale"]
+            .view(-1, 1, 1, 1, 1)
+            .to(batch["instances"].device)
+        ).unsqueeze(dim=-4).float()  # (batch, 1, 1, n_inst, nodes, 2)
         cent = (
             batch["centroids"].unsqueeze(dim=-2).unsqueeze(dim=-3).float()
         )  # (batch, 1, n_centroids, 1, 1, 2)
